@@ -22,7 +22,9 @@ RULE = (
     "right ones); one in-process run with create+fix approved; then the rewritten module is re-executed "
     "with inline-snapshot inactive: every test must pass and every site argument must satisfy the "
     "observed comparisons on the plain value. non-trivial = a previous value is present, differs from "
-    "the observed one, and one of them is a container or constructor call."
+    "the observed one, and one of them is a container or constructor call. Arm inner: an outer == snapshot whose "
+    "elements are managed values or inner snapshots (empty, wrong, noisy, right; same or changed length) followed "
+    "by another empty snapshot; a guarded comparison that raises may precede everything (raiser_first)."
 )
 ASSUMPTIONS = [
     "no user-controlled parts (Is, f-strings, star-expressions) in the previous text (C10 covers them)",
@@ -113,7 +115,62 @@ def check(case):
             "sample": {"before": src, "after": text}}
 
 
+def _strategy_inner(tier):
+    from .c09 import _strategy_inner as s
+
+    return s(tier)
+
+
+def check_inner(case):
+    """an outer == snapshot whose elements are managed values or inner snapshots (empty, wrong, noisy, right):
+    one create+fix run must leave a test that passes with inline-snapshot inactive"""
+    import warnings
+
+    olds, news = [], []
+    for i, k in enumerate(case["elems"]):
+        v = 10 + i
+        news.append(str(v))
+        olds.append({"same": str(v), "fix": str(v + 100), "update": f"{v - 1}+1", "inner-create": "snapshot()",
+                     "inner-fix": f"snapshot({v + 100})", "inner-update": f"snapshot({v - 1}+1)",
+                     "inner-same": f"snapshot({v})"}[k])
+    if case["longer"]:
+        news.append("99")
+    shape = case["shape"]
+    if shape == "call":
+        olds, news = olds[:2], news[:2]
+
+    def wrap(xs):
+        if shape == "list":
+            return "[" + ", ".join(xs) + "]"
+        if shape == "tuple":
+            return "(" + ", ".join(xs) + ",)"
+        if shape == "dict":
+            return "{" + ", ".join(f"'k{i}': {x}" for i, x in enumerate(xs)) + "}"
+        return "Point(" + ", ".join(f"{n}={x}" for n, x in zip("xy", xs)) + ")"
+
+    src = ("from inline_snapshot import snapshot\nfrom vf_prelude import *\n\n\ndef test_a():\n"
+           f"    assert {wrap(news)} == snapshot({wrap(olds)})\n    assert 5 == snapshot()\n")
+    with warnings.catch_warnings():
+        warnings.simplefilter("ignore")
+        ses = drivers.run_inline({"test_a.py": src}, {"create", "fix"})
+    if not ses.ok():
+        err = ses.exec_error or ses.collect_error or ses.apply_error
+        raise Violation("session-exception:" + type(err).__name__, f"{type(err).__name__}: {err}\n{src}")
+    exc = ses.test_results.get("test_a.py::test_a")
+    if exc is not None:
+        raise Violation("fix-run-test-failed:" + type(exc).__name__, f"{type(exc).__name__}: {exc}\n{src}")
+    text = ses.files_after["test_a.py"].decode("utf-8")
+    g, results, exec_error = drivers.run_disabled({"test_a.py": text})
+    bad = exec_error or results.get("test_a.py::test_a")
+    if bad is not None:
+        raise Violation("disabled-test-failed:inner",
+                        f"{type(bad).__name__}: {bad}\n--- before\n{src}\n--- after\n{text}")
+    inner = any(k.startswith("inner-") and k != "inner-same" for k in case["elems"])
+    return {"nontrivial": inner, "classes": ["inner", shape], "sample": {"before": src, "after": text}}
+
+
 ARMS = [
+    HypArm("inner", _strategy_inner, check_inner, budget={"quick": 300, "thorough": 10000}),
     HypArm("create_fix", _strategy, check, signature=signature,
            budget={"quick": 1500, "thorough": 100000}),
 ]
